@@ -19,20 +19,26 @@ import CocaVerif.Drv.Refactor
 import CocaVerif.Drv.Front
 open Lean
 
-partial def loop {σ : Type} (h : IO.FS.Stream) (out : IO.FS.Stream) (step : σ → Json → σ × Json) (st : σ) : IO Unit := do
+partial def loopFrom {σ : Type} (h : IO.FS.Stream) (out : IO.FS.Stream) (step : σ → Json → σ × Json) (init : σ) (st : σ) : IO Unit := do
   let line ← h.getLine
   if line.isEmpty then return ()
-  if line.trim.isEmpty then loop h out step st else
+  if line.trim.isEmpty then loopFrom h out step init st else
   match Json.parse line with
   | .error e => do
     out.putStrLn (Json.mkObj [("bad-case", e)]).compress
-    loop h out step st
+    loopFrom h out step init st
   | .ok j => do
-    let (st', o) := step st j
+    -- a case marked "cli" went through the real command in a FRESH process: the model runs it from the initial
+    -- state, and the state threaded through the history is left as it was
+    let cli := CocaVerif.J.boolD j "cli"
+    let (st', o) := step (if cli then init else st) j
     let id := CocaVerif.J.natD j "id"
     out.putStrLn (Json.mkObj [("id", CocaVerif.J.mkNat id), ("out", o)]).compress
     out.flush
-    loop h out step st'
+    loopFrom h out step init (if cli then st else st')
+
+def loop {σ : Type} (h : IO.FS.Stream) (out : IO.FS.Stream) (step : σ → Json → σ × Json) (st : σ) : IO Unit :=
+  loopFrom h out step st st
 
 def main (args : List String) : IO UInt32 := do
   let stdin ← IO.getStdin
